@@ -5,9 +5,9 @@ SRC = "/tmp/seedwork"
 OUT = "/verif/seeded"
 needs = json.load(open("/verif/tools/seed_needs.json"))
 runs = {}   # seed -> list of (check, exit, violations, seconds, reason)
-for log in sorted(glob.glob("/tmp/seedrun/batch*.log")) + sorted(glob.glob("/verif/work/seedruns/*.log")):
+for log in sorted(glob.glob("/verif/seeded/_runs/*.log")):
     for line in open(log):
-        m = re.match(r"(C\d\d[A-Z]) (C\d\d) exit=(\d+) violations=(\d+) t=(\d+)s :: (.*)", line.strip())
+        m = re.match(r"(C\d\d[A-Z]) (C\d\d) exit=(\d+) violations=(\d+) t=(\d+)s ::\s*(.*)", line.strip())
         if m:
             runs.setdefault(m.group(1), []).append({"check": m.group(2), "tier": "quick" if "thorough" not in log else "thorough", "exit": int(m.group(3)),
                 "violation_lines": int(m.group(4)), "seconds": int(m.group(5)), "first_reason": m.group(6).replace("reason:", "").strip()[:300], "log": os.path.basename(log)})
@@ -31,8 +31,12 @@ for sid in sorted(needs):
     else:
         sm = None
     rr = runs.get(sid, [])
-    detected = sorted({r["check"] for r in rr if r["exit"] == 1})
-    missed = sorted({r["check"] for r in rr if r["exit"] == 0})
+    # later logs supersede earlier ones for the same check (checks were strengthened between batches)
+    last = {}
+    for r in rr:
+        last[r["check"]] = r
+    detected = sorted(c for c, r in last.items() if r["exit"] == 1)
+    missed = sorted(c for c, r in last.items() if r["exit"] == 0)
     meta = {
         "id": sid,
         "property_broken": pid,
